@@ -771,14 +771,36 @@ impl Indexable for ast::Value {
     }
 }
 
+fn range_suffix_width(range_suffix: &ast::RangeSuffix) -> Option<usize> {
+    let mut width: usize = 0;
+    for piece in range_suffix.range_list()?.pieces() {
+        let start = piece.start()?.value()?;
+        let piece_width = match piece.end() {
+            // "3-0" is lexed as 3 and -0
+            Some(end) => start
+                .checked_sub(end.value()?.checked_abs()?)?
+                .unsigned_abs()
+                .checked_add(1)?,
+            None => 1,
+        };
+        width = width.checked_add(usize::try_from(piece_width).ok()?)?;
+    }
+    Some(width)
+}
+
 impl Indexable for ast::InnerValue {
     type Output = Type;
     fn index(&self, ctx: &mut IndexCtx) -> Option<Self::Output> {
         let mut lhs_typ = self.simple_value()?.index(ctx)?;
         for suffix in self.suffixes() {
             lhs_typ = match suffix {
-                ast::ValueSuffix::RangeSuffix(_) => match lhs_typ {
-                    Type::Bits(_) => Some(Type::Bit),
+                // selecting n bits of a bits<m> or int value gives bits<n> (a single bit: bit)
+                ast::ValueSuffix::RangeSuffix(range_suffix) => match lhs_typ {
+                    Type::Bits(_) | Type::Int => match range_suffix_width(&range_suffix) {
+                        Some(1) => Some(Type::Bit),
+                        Some(width) => Some(Type::Bits(width)),
+                        None => None,
+                    },
                     _ => None,
                 },
                 ast::ValueSuffix::SliceSuffix(slice_suffix) => {
